@@ -227,6 +227,12 @@ def rule_R2(ctx, prj):
     else:
         ctx.ok("R2", site, f"Pattern.consume: the outcome of all {r.scenarios} two-transition scenarios (list order x open x accepting) "
                            f"is independent of the list order" + ("; a second accepting transition raises" if r.raises_on_second else ""))
+    if r.history_dependent:
+        ctx.viol("R2", "Pattern.consume/history-dependent", r.fi.site(),
+                 f"the outcome of Pattern.consume depends on what an earlier match attempt left on the automaton they share: {r.history_dependent[0]} "
+                 f"({len(r.history_dependent)} of {r.history_scenarios} scenario pairs): the result for a piece of source then depends on what was matched before it")
+    elif r.history_scenarios:
+        ctx.ok("R2", r.fi.site(), f"Pattern.consume: {r.history_scenarios} (earlier attempt, this attempt) scenario pairs over one automaton - the outcome never depends on the earlier attempt")
     return r
 
 
